@@ -3,6 +3,7 @@
 From Coq Require Import String List NArith ZArith Bool Permutation.
 From J5V.lib Require Import Outcome.
 From J5V.model Require Import ReflectDesc ReflectSchema Reflect ReflectOwn ExportForm Export ExportFields ExportApi.
+From J5V.model Require ReflectCorr ExportCorr.
 From J5V.gen Require ReflectGen.
 From J5V.proofs Require Import ReflectProofs ExportProofs ReflectInvProofs ReflectWeakProofs ExportApiProofs.
 Import ListNotations.
@@ -195,3 +196,36 @@ Proof.
   - intros k H. vm_compute in H. repeat (destruct H as [H|H]; [subst k; vm_compute; auto 10|]). destruct H.
   - eexists. split; vm_compute; reflexivity.
 Qed.
+
+(* ---- non-vacuity of the full statement at the API level: a self-recursive and a mutually recursive message
+   with a flattened field and an enum, in a listed package p.v1: APIFromImage succeeds with three schemas,
+   PackageSetFromSourceAPI rebuilds them, and the rebuilt set re-exports to exactly the first export *)
+Definition api_ex_fopts := FOpts None None None None.
+Definition api_ex_desc : desc :=
+  {| d_msgs := [
+       Msg (bytes "p.v1.Node") (bytes "p.v1") [bytes "Node"]
+         [Fld (bytes "next") (bytes "next") 1 KMessage CSingle None (TMsg (bytes "p.v1.Node")) api_ex_fopts [];
+          Fld (bytes "peer") (bytes "peer") 2 KMessage CRepeated None (TMsg (bytes "p.v1.Peer")) api_ex_fopts [];
+          Fld (bytes "kind") (bytes "kind") 4 KEnum CSingle None (TEnum (bytes "p.v1.Kind")) api_ex_fopts []]
+         [] None None [];
+       Msg (bytes "p.v1.Peer") (bytes "p.v1") [bytes "Peer"]
+         [Fld (bytes "node") (bytes "node") 1 KMessage CSingle None (TMsg (bytes "p.v1.Node"))
+              (FOpts None None (Some (JObject true)) None) []]
+         [] None None []];
+     d_enums := [Enum (bytes "p.v1.Kind") (bytes "p.v1") [bytes "Kind"]
+                   [EnumVal (bytes "KIND_UNSPECIFIED") 0 None []; EnumVal (bytes "KIND_A") 1 None []] None []];
+     d_files := [File (bytes "p/v1/a.proto") (bytes "p.v1") [bytes "p.v1.Node"; bytes "p.v1.Peer"] [bytes "p.v1.Kind"]] |}.
+Definition api_ex_api : xapi :=
+  match api_from_image api_ex_desc [] [bytes "p.v1"] (d_files api_ex_desc) with Ok a => a | _ => [] end.
+Definition api_ex_set : sset := match import_packages api_ex_api with ROk s => s | RErr _ => [] end.
+
+Example C15_example_api :
+  api_from_image api_ex_desc [] [bytes "p.v1"] (d_files api_ex_desc) = Ok api_ex_api /\
+  length (api_entries api_ex_api) = 3%nat /\
+  import_packages api_ex_api = ROk api_ex_set /\ length api_ex_set = 3%nat /\
+  forallb (fun kx => match lookup api_ex_set (fst kx) with
+                     | Some (Linked r') => ExportCorr.xroot_eqb (export_root r') (snd kx)
+                     | _ => false
+                     end) (api_entries api_ex_api) = true /\
+  refs_resolved api_ex_set = true.
+Proof. repeat split; vm_compute; reflexivity. Qed.
